@@ -301,6 +301,15 @@ def target_body(case, rec):
     signal.alarm(30)
     try:
         with repo.quiet():
+            if case['k'] % 2 == 0:
+                # a caller may look the end points up before refining (on the same mesh object): the answer must be
+                # a vertex at that point or None when there is none -- and must not influence later lookups
+                for vv, pnt in ((v0, qt if case['flip'] else pt), (v1, pt if case['flip'] else qt)):
+                    pre = mesh.vertex_from_coords(vv)
+                    exists = [w for w in mesh.vertices if abs(float(w.x) - pnt[0]) <= 1e-9 * unit and abs(float(w.y) - pnt[1]) <= 1e-9 * unit]
+                    if (pre is None) != (not exists) or (pre is not None and pre not in exists):
+                        rec.violation('C16/target/pre_lookup', {'returned': repr(pre), 'existing': repr(exists)}, case)
+                        return
             el = mesh.refine_msh_bdr(v0, v1)
             a = mesh.vertex_from_coords(v0)
             b = mesh.vertex_from_coords(v1)
